@@ -90,7 +90,13 @@ Definition retry_spec_ok (c : rcase) : bool :=
   match r_cancel c with
   | Some cn =>
       forallb (fun a => (o_no a =? 0) || (o_start a <=? cn + margin)) l &&
-      (if r_res c =? 3 then (cn - margin <=? r_te c) && (r_te c <=? Z.max (last_oend l) cn + prompt) else true)
+      (if r_res c =? 3 then
+         (cn - margin <=? r_te c) && (r_te c <=? Z.max (last_oend l) cn + prompt) &&
+         (* it did not sit out the pause: when the cancellation came at least 50 ms before the
+            timer was due, the return is before that instant *)
+         (let due := last_oend l + pause_of (r_iv c) (length l) in
+          if (Z.max (last_oend l) cn + 50000000 <=? due) then r_te c <? due else true)
+       else true)
   | None => true
   end.
 
